@@ -22,20 +22,20 @@ import (
 
 // SeqSpec describes one search: initial image, set-up, alphabet and oracle.
 type SeqSpec struct {
-	Prop     string
-	DiskSize uint64
-	Image    func() *vdisk.Image // default: mkfs of DiskSize
-	Setup    []fsx.Op            // executed (and model-checked) before the searched sequence
-	Alphabet []fsx.Op
-	Unstable bool
-	NoUnstable bool // run the server with Unstable=false
-	Strict   bool // dead handles must answer STALE/BADHANDLE
+	Prop          string
+	DiskSize      uint64
+	Image         func() *vdisk.Image // default: mkfs of DiskSize
+	Setup         []fsx.Op            // executed (and model-checked) before the searched sequence
+	Alphabet      []fsx.Op
+	Unstable      bool
+	NoUnstable    bool // run the server with Unstable=false
+	Strict        bool // dead handles must answer STALE/BADHANDLE
 	AllowImplFail bool
 	// After is the per-transition oracle; it runs after the last operation of
 	// the path (whose reply and model verdict it gets) inside the execution.
 	After func(w *World, path []fsx.Op, r fsx.Reply, implFail bool, mis *reffs.Mismatch, viol func(sig, detail string))
 	// Key overrides the canonical state key (default: model + disk + allocator cursors)
-	Key func(w *World) string
+	Key      func(w *World) string
 	ICacheSz uint64
 	ViaXDR   bool
 }
@@ -198,8 +198,8 @@ func seqExpand(raw json.RawMessage) (interface{}, error) {
 		full := append(append([]fsx.Op{}, a.Path...), op)
 		viol := func(sig, detail string) {
 			succ.Viols = append(succ.Viols, &report.Violation{Property: spec.Prop, Sig: sig,
-				Detail:  "history: " + fsx.Hist(full) + "\n" + detail,
-				Replay:  map[string]interface{}{"job": "seq.expand", "arg": seqArg{Spec: a.Spec, Path: a.Path, Only: oi}}})
+				Detail: "history: " + fsx.Hist(full) + "\n" + detail,
+				Replay: map[string]interface{}{"job": "seq.expand", "arg": seqArg{Spec: a.Spec, Path: a.Path, Only: oi}}})
 		}
 		var lastClass string
 		savedIC := fstxn.ICACHESZ
